@@ -120,6 +120,20 @@ impl FixtureDatabase {
         self.evict_cache_if_needed();
     }
 
+    /// Whether a file lives in a `site-packages` directory (third-party code).
+    ///
+    /// For files inside the workspace only the part of the path below the workspace root is
+    /// considered: a project checked out under `.../site-packages/...` is not third-party,
+    /// while its own `.venv/lib/pythonX/site-packages` still is.
+    fn is_in_site_packages(&self, file_path: &Path) -> bool {
+        let workspace = self.workspace_root.lock().unwrap();
+        let relevant = match workspace.as_ref() {
+            Some(root) => file_path.strip_prefix(root).unwrap_or(file_path),
+            None => file_path,
+        };
+        relevant.to_string_lossy().contains("site-packages")
+    }
+
     /// Remove definitions that were in a specific file.
     /// Uses the file_definitions reverse index for efficient O(m) cleanup
     /// where m = number of fixtures in this file, rather than O(n) where
@@ -465,7 +479,7 @@ impl FixtureDatabase {
 
             let (start_char, end_char) = self.find_function_name_position(content, line, func_name);
 
-            let is_third_party = file_path.to_string_lossy().contains("site-packages")
+            let is_third_party = self.is_in_site_packages(file_path)
                 || self.is_editable_install_third_party(file_path);
             let is_plugin = self.plugin_fixture_files.contains_key(file_path);
 
@@ -636,9 +650,8 @@ impl FixtureDatabase {
                                 fixture_name, file_path, line, start_char, end_char
                             );
 
-                            let is_third_party =
-                                file_path.to_string_lossy().contains("site-packages")
-                                    || self.is_editable_install_third_party(file_path);
+                            let is_third_party = self.is_in_site_packages(file_path)
+                                || self.is_editable_install_third_party(file_path);
                             let is_plugin = self.plugin_fixture_files.contains_key(file_path);
                             let definition = FixtureDefinition {
                                 name: fixture_name.to_string(),
